@@ -7,9 +7,9 @@ func init() {
 		Mutant{Name: "c11-replacer-ambiguous", Property: "C11", File: "martian/core/stage.go",
 			Old: "strings.NewReplacer(\".\", \"%2E\", \"/\", \"%2F\")", New: "strings.NewReplacer(\".\", \"_\", \"/\", \"%2F\")", Expect: "J1"},
 		Mutant{Name: "c11-uniquifier-width", Property: "C11", File: "martian/core/metadata.go",
-			Old: "fmt.Sprintf(\"%04x%06x\", uint16(os.Getpid()), trimmedTime)", New: "fmt.Sprintf(\"%04x%07x\", uint16(os.Getpid()), trimmedTime)", Expect: "J1"},
+			Old: "fmt.Sprintf(\"%04x%06x\", pid, trimmedTime)", New: "fmt.Sprintf(\"%04x%07x\", pid, trimmedTime)", Expect: "J1"},
 		Mutant{Name: "c11-uniquifier-unmasked-pid", Property: "C11", File: "martian/core/metadata.go",
-			Old: "fmt.Sprintf(\"%04x%06x\", uint16(os.Getpid()), trimmedTime)", New: "fmt.Sprintf(\"%04x%06x\", os.Getpid(), trimmedTime)", Expect: "J1"},
+			Old: "fmt.Sprintf(\"%04x%06x\", pid, trimmedTime)", New: "fmt.Sprintf(\"%04x%06x\", os.Getpid(), trimmedTime)", Expect: "J1"},
 		Mutant{Name: "c11-raw-key-in-nested-id", Property: "C11", File: "martian/core/fork.go",
 			Old: "\t\t\t\twriteSafeKey(buf, part.Id.MapKey())\n", New: "\t\t\t\tbuf.WriteString(part.Id.MapKey())\n", Expect: "J2"},
 		Mutant{Name: "c11-fqname-unencoded", Property: "C11", File: "martian/core/stage.go",
